@@ -53,6 +53,7 @@ def snap_awkward(arr):
     return {
         "kind": "awkward", "class": type(arr).__name__, "form": form.to_json() if hasattr(form, "to_json") else str(form),
         "length": length, "at": at, "buffers": bufs, "behavior_id": id(beh), "behavior_len": None if beh is None else len(beh),
+        "behavior_keys": None if beh is None else _h(repr(sorted((repr(k), id(v)) for k, v in beh.items())).encode()),
         "fields": list(ak.fields(arr)), "type": str(arr.type),
     }
 
